@@ -262,6 +262,12 @@ func zeroValuesOK(md protoreflect.MessageDescriptor, v interface{}) (bool, strin
 // compare: no NaN (NaN != NaN under every runtime's Equal), timestamps and durations in their valid ranges.
 func sanitizeForJSON(m protoreflect.Message) {
 	fixScalar := func(fd protoreflect.FieldDescriptor, v protoreflect.Value) protoreflect.Value {
+		if fd.Kind() == protoreflect.StringKind && len(v.String())%5 == 3 {
+			// text that looks like JSON syntax and like the marshalers' own layout (spaces after a colon,
+			// line breaks followed by indentation, quotes, braces): it must come back unchanged
+			spice := []string{"a:  b", "{\"k\":  \"v\"}", "x\n  y", "\":  \"", "t\t:  x,\n\t\"z\": [ 1,  2 ]", "\\u0041:  \\n", "</script>:  &amp;"}
+			return protoreflect.ValueOfString(spice[len(v.String())/5%len(spice)] + v.String())
+		}
 		if (fd.Kind() == protoreflect.FloatKind || fd.Kind() == protoreflect.DoubleKind) && v.Float() != v.Float() {
 			if fd.Kind() == protoreflect.FloatKind {
 				return protoreflect.ValueOfFloat32(1.5)
@@ -315,6 +321,9 @@ func sanitizeForJSON(m protoreflect.Message) {
 	})
 }
 
+var lastJSONLive, lastJSONSnap []byte
+var lastJSONDesc string
+
 func jsonCase(c *fw.Ctx, t jsonType) {
 	r := c.Rng
 	ref := gencheck.RandMessage(r, t.md, true)
@@ -339,6 +348,14 @@ func jsonCase(c *fw.Ctx, t jsonType) {
 	}); p != "" {
 		viol("json/marshal-panic", "JSONMarshaler panicked", "no panic", p)
 		return
+	}
+	// an earlier output must not change when the adapter is used again
+	if lastJSONLive != nil && !bytes.Equal(lastJSONLive, lastJSONSnap) {
+		viol("json/earlier-output-overwritten", "the bytes returned by an earlier MarshalJSON call changed when MarshalJSON was called again ("+lastJSONDesc+")",
+			trunc(string(lastJSONSnap), 300), trunc(string(lastJSONLive), 300))
+	}
+	if err == nil {
+		lastJSONLive, lastJSONSnap, lastJSONDesc = b, append([]byte{}, b...), t.name
 	}
 	want, werr := t.runtimeMarshal(m, indent, enumNumbers, zero)
 	if (err == nil) != (werr == nil) {
